@@ -1,0 +1,72 @@
+//go:build verif
+
+// Verification hooks (build tag `verif` only): constructors and read access
+// that the out-of-tree correspondence harness in /verif needs because the
+// corresponding identifiers are unexported. Add-only; no behaviour change.
+
+package environment
+
+import (
+	"github.com/AliceO2Group/Control/common/utils/uid"
+	"github.com/AliceO2Group/Control/core/task"
+	"github.com/AliceO2Group/Control/core/workflow"
+)
+
+// NewEnvironmentForVerif is newEnvironment.
+func NewEnvironmentForVerif(userVars map[string]string, id uid.ID) (*Environment, error) {
+	return newEnvironment(userVars, id)
+}
+
+// SetWorkflowForVerif installs an already built role tree as the environment's workflow.
+func (env *Environment) SetWorkflowForVerif(wf workflow.Role) {
+	env.Mu.Lock()
+	env.workflow = wf
+	env.Mu.Unlock()
+}
+
+// WfAdapterForVerif returns the ParentAdapter the environment hands to workflow.Load.
+func (env *Environment) WfAdapterForVerif() *workflow.ParentAdapter { return env.wfAdapter }
+
+// SetHookHandlerForVerif sets hookHandlerF (CreateEnvironment sets it to taskman.TriggerHooks).
+func (env *Environment) SetHookHandlerForVerif(f func(hooks task.Tasks) error) { env.hookHandlerF = f }
+
+// PendingAwaitForVerif reports, per await trigger and weight, how many started calls are still pending.
+func (env *Environment) PendingAwaitForVerif() map[string]map[int]int {
+	out := make(map[string]map[int]int)
+	for name, byWeight := range env.callsPendingAwait {
+		for w, calls := range byWeight {
+			if len(calls) == 0 {
+				continue
+			}
+			if out[name] == nil {
+				out[name] = make(map[int]int)
+			}
+			out[name][int(w)] = len(calls)
+		}
+	}
+	return out
+}
+
+type scriptedTransition struct {
+	baseTransition
+	body func(env *Environment) error
+}
+
+func (t scriptedTransition) do(env *Environment) error { return t.body(env) }
+
+// NewScriptedTransition is a Transition for event `name` whose task-level body is `body`.
+func NewScriptedTransition(name string, taskman *task.Manager, body func(env *Environment) error) Transition {
+	return &scriptedTransition{baseTransition: baseTransition{name: name, taskman: taskman}, body: body}
+}
+
+// AddEnvironmentForVerif registers env with the manager the way CreateEnvironment does.
+func (envs *Manager) AddEnvironmentForVerif(env *Environment) {
+	envs.mu.Lock()
+	envs.m[env.id] = env
+	envs.pendingStateChangeCh[env.id] = env.stateChangedCh
+	envs.mu.Unlock()
+}
+
+// SetCurrentRunNumberForVerif lets a scripted START_ACTIVITY body mimic the real one, which
+// resets currentRunNumber when the tasks fail to start.
+func (env *Environment) SetCurrentRunNumberForVerif(rn uint32) { env.currentRunNumber = rn }
